@@ -27,6 +27,7 @@ RULE = (
     "raw h5py) of every neighbour is unchanged and each still reads as its model. Each fault is one evaluation. "
     "Non-trivial = fault at chunk index >= 1 (data already written) with >= 1 neighbour. Distinct by (digest of "
     "the outer case, fault)."
+    " Also (part wide): ONE table of more than 2**17 rows given as a single chunk (frame, dict of arrays, one-chunk iterable) with a duplicated pixel whose two copies sit on either side of every power-of-two row number 2**10..2**17, of 10**3..10**5 and of generated row numbers - refused, nothing recognised."
     " Also: destination '/' in append mode beside collections in sub-groups; a fault in the very last step (metadata that cannot be serialised, after all chunks and the indexes were written)."
 )
 ASSUMPTIONS = [
@@ -407,7 +408,53 @@ def check_faults(case, ctx: Ctx):
                n_eval=n_eval, n_nontrivial=n_nt)
 
 
-CHECKS = {"faults": check_faults}
+@st.composite
+def wide_cases(draw):
+    return {"part": "wide", "nbins": draw(st.integers(513, 540)), "form": draw(st.sampled_from(["frame", "dict", "one-chunk-iterable"])),
+            "symmetric": draw(st.booleans()), "extra_ranks": sorted(draw(st.lists(st.integers(0, 131000), min_size=2, max_size=4, unique=True)))}
+
+
+def check_wide(case, ctx: Ctx):
+    """One LARGE table (> 2**17 rows) given as a single chunk: a pixel duplicated anywhere in it - in particular with its two
+    copies on either side of a power-of-two or power-of-ten row number, where an implementation that cuts big tables into
+    internal blocks would separate them - is rejected, and nothing is recognised at the destination."""
+    import pandas as pd
+
+    import cooler
+    from cooler.fileops import is_cooler
+
+    n = case["nbins"]
+    sym = case["symmetric"]
+    if sym:
+        i, j = np.triu_indices(n)
+    else:
+        m = 2 ** 17 + 500
+        i, j = np.divmod(np.arange(m, dtype=np.int64), n)
+    total = len(i)
+    bins = pd.DataFrame({"chrom": ["c1"] * n, "start": np.arange(n) * 10, "end": np.arange(1, n + 1) * 10})
+    ranks = sorted({2 ** k - 1 for k in range(10, 18)} | {10 ** k - 1 for k in range(3, 6)} | {2 ** 16 + 2 ** 15 - 1, 0, total - 1} | set(case["extra_ranks"]))
+    ranks = [r for r in ranks if r < total]
+    path = ctx.tmp(".cool")
+    n_eval = 0
+    try:
+        for r in ranks:
+            b1 = np.insert(i, r, i[r]).astype(np.int64)
+            b2 = np.insert(j, r, j[r]).astype(np.int64)
+            cnt = np.ones(total + 1, dtype=np.int32)
+            data = {"bin1_id": b1, "bin2_id": b2, "count": cnt}
+            px = pd.DataFrame(data) if case["form"] == "frame" else data if case["form"] == "dict" else iter([pd.DataFrame(data)])
+            ctx.clean(path)
+            must_raise(f"create_cooler({case['form']} of {total + 1} rows; rows {r} and {r + 1} are the same pixel)",
+                       lambda px=px: cooler.create_cooler(path, bins, px, ordered=True, symmetric_upper=sym, h5opts={"compression": None}))
+            r_ = call("is_cooler(dest)", is_cooler, path) if os.path.exists(path) else False
+            check(r_ is False, f"after the refused creation (duplicate at rows {r},{r + 1}) the destination is recognised as a cooler")
+            n_eval += 1
+    finally:
+        ctx.clean(path)
+    ctx.record(case, True, ["wide", "wide-form=" + case["form"], "wide-sym" if sym else "wide-square"], n_eval=n_eval, n_nontrivial=n_eval)
+
+
+CHECKS = {"faults": check_faults, "wide": check_wide}
 
 
 def replay(ctx: Ctx, case):
@@ -416,5 +463,7 @@ def replay(ctx: Ctx, case):
 
 def run(ctx: Ctx):
     q = ctx.tier == "quick"
+    if not run_given(ctx, "wide", wide_cases(), check_wide, 2 if q else 8, batch=2):
+        return
     run_given(ctx, "faults", cases(), check_faults, per_shard(ctx, 400 if q else 4800), batch=10)
     ctx.exhaustive_subdomains["complete fault space (kind x chunk x position, iterator failure before every chunk) per generated stream"] = 1
